@@ -45,6 +45,7 @@ def run(ctx):
         return replay(ctx, "C02")
     res = memcache.explore(ctx, "C02", 12000 if ctx.thorough else 1000, "main")
     poison_probe.run_memory(res, core.use_repo())
+    poison_probe.run_twins(res, core.use_repo())
     return res
 
 
